@@ -287,6 +287,11 @@ fn sites(toks: &[Tok], t: usize) -> Vec<usize> {
                 if is_simple_line(toks, w[0]) && is_simple_line(toks, w[1]) && w[0].1 < toks.len() {
                     out.push(w[0].1); // the Eol between them
                 }
+                // a line that holds only a label, followed by a simple statement: `Lbl:` / `PRINT 1` becomes `Lbl: PRINT 1`
+                let l: Vec<&Tok> = toks[w[0].0..w[0].1].iter().filter(|t| t.kind != TokKind::Blank).collect();
+                if l.len() == 2 && l[0].kind == TokKind::Word && l[1].kind == TokKind::Symbol && l[1].text == ":" && !BLOCK_WORDS.iter().any(|b| l[0].text.eq_ignore_ascii_case(b)) && is_simple_line(toks, w[1]) && w[0].1 < toks.len() {
+                    out.push(w[0].1);
+                }
             }
             out
         }
@@ -357,7 +362,11 @@ fn apply(toks: &[Tok], t: usize, chosen: &[usize]) -> String {
             17 => {}
             7 => out.push(tok(x.kind, "\r\n")),
             8 => out.push(tok(x.kind, "\r")),
-            9 => out.push(tok(TokKind::Symbol, " : ")),
+            9 => {
+                // after a label the label's own colon separates
+                let after_label = out.iter().rev().find(|t| t.kind != TokKind::Blank).map(|t| t.kind == TokKind::Symbol && t.text == ":").unwrap_or(false);
+                out.push(if after_label { tok(TokKind::Blank, " ") } else { tok(TokKind::Symbol, " : ") })
+            }
             10 => out.push(tok(TokKind::Eol, "\n")),
             12 => {
                 let k = chosen.iter().position(|c| *c == i).unwrap_or(0);
@@ -515,7 +524,7 @@ pub fn drive(tier: &str) -> i32 {
     }
     groups.push(super::run_text_group(&mut run, &pool, "names with every letter of the alphabet", &alpha, 4, &extra));
     let mut ev = Evidence::new("exploration");
-    ev.set("rule", "for every text of the groups: 18 layout transformations (words lower / upper / alternating case outside strings, comments and DATA; blank runs tripled / turned into a tab; a blank line after every line; a trailing comment on every line without DATA or comment; line ends CR LF / CR; newline -> colon between two simple statements; colon -> newline between statements of a line without IF / CASE / DATA; blanks around separators doubled where a blank is adjacent; word case alternating from one occurrence to the next; a blank before and after every statement colon; a long trailing comment holding a URL with a word of 60 letters, quotes and keywords; lines indented by 256 blanks; blank runs of 300 blanks — so that statements start beyond column 255; the blank removed next to = + * / < > , ; and next to a parenthesis that follows or precedes a keyword or a symbol), each applied at all eligible sites, at the even sites, at the odd sites and (texts with few sites) at every single site, plus all of them at once. Observables compared with the original: the parse tree's Debug rendering with positions erased and letters outside string literals upper-cased, the verdict class of parser / checker / run (error kind, run-time code), stdout and LPT1.");
+    ev.set("rule", "for every text of the groups: 18 layout transformations (words lower / upper / alternating case outside strings, comments and DATA; blank runs tripled / turned into a tab; a blank line after every line; a trailing comment on every line without DATA or comment; line ends CR LF / CR; newline -> colon between two simple statements (and a label on its own line joined with the simple statement after it: `Lbl: PRINT 1`); colon -> newline between statements of a line without IF / CASE / DATA; blanks around separators doubled where a blank is adjacent; word case alternating from one occurrence to the next; a blank before and after every statement colon; a long trailing comment holding a URL with a word of 60 letters, quotes and keywords; lines indented by 256 blanks; blank runs of 300 blanks — so that statements start beyond column 255; the blank removed next to = + * / < > , ; and next to a parenthesis that follows or precedes a keyword or a symbol), each applied at all eligible sites, at the even sites, at the odd sites and (texts with few sites) at every single site, plus all of them at once. Observables compared with the original: the parse tree's Debug rendering with positions erased and letters outside string literals upper-cased, the verdict class of parser / checker / run (error kind, run-time code), stdout and LPT1.");
     ev.set("exhaustive", !run.capped);
     ev.set("groups", json!(groups));
     ev.set("distinct_nontrivial", run.nontrivial);
